@@ -2034,7 +2034,7 @@ def SIS_homogeneous_pairwise(S0, I0, SI0, SS0, n, tau, gamma, tmin = 0,
     '''
     N = S0+I0
 
-    if SS0 + SI0*2>n*N:
+    if SS0 + SI0*2>n*N*(1+1e-10):  #tolerance: n is usually a floating point average degree
         raise EoN.EoNError('Initial condition has more SS, SI, and IS edges than allowed')
 
     X0 = np.array([S0, SI0, SS0])
@@ -2124,7 +2124,7 @@ def SIR_homogeneous_pairwise(S0, I0, R0, SI0, SS0, n, tau, gamma, tmin = 0,
 
     '''
     N = S0+I0+R0
-    if SS0 + 2*SI0 > n*N:
+    if SS0 + 2*SI0 > n*N*(1+1e-10):  #tolerance: n is usually a floating point average degree
         raise EoN.EoNError('Initial condition has more SS, SI, and IS edges than allowed')
     X0 = np.array([S0, I0, SI0, SS0])
     times = np.linspace(tmin,tmax,tcount)
